@@ -237,7 +237,7 @@ class Parser:
             elif type(tok) is defs.SpecialToken:
                 out.append(defs.ActionToken(tok.pos))
                 txt = self.parms.special_tokens[tok.txt]
-                out.append(defs.TextToken(tok.pos, txt))
+                out.append(defs.TextToken(tok.pos, txt, pos_fix=tok.pos_fix))
             elif type(tok) is defs.VerbatimToken:
                 if tok.environ:
                     # for Environ() entry in Parameters.environment_defs
@@ -246,7 +246,8 @@ class Parser:
                     continue
                 else:
                     out.append(defs.ActionToken(tok.pos))
-                    out.append(defs.TextToken(tok.pos, tok.txt))
+                    out.append(defs.TextToken(tok.pos, tok.txt,
+                                                pos_fix=tok.pos_fix))
             elif type(tok) is defs.LanguageToken:
                 if self.parms.multi_language:
                     self.parms.change_parser_lang(tok)
@@ -429,7 +430,7 @@ class Parser:
         except:
             return utils.latex_error('could not find UTF-8 character "' + c
                                     + '"', tok.pos, self.latex, self.parms)
-        return [defs.TextToken(tok.pos, u)] + args
+        return [defs.TextToken(tok.pos, u, pos_fix=tok.pos_fix)] + args
 
     #   open an environment
     #
@@ -481,16 +482,18 @@ class Parser:
     def expand_verb_env_token(self, tok):
         tok = copy.copy(tok)
         tok.environ = False
+        # position of \end{verbatim}; a fixed-position token has no extent
+        end = tok.pos if tok.pos_fix else tok.pos + len(tok.txt)
         return [
                     defs.BeginToken(tok.pos, '\\begin'),
                     defs.SpecialToken(tok.pos, '{'),
                     defs.TextToken(tok.pos, 'verbatim'),
                     defs.SpecialToken(tok.pos, '}'),
                     tok,
-                    defs.EndToken(tok.pos + len(tok.txt), '\\end'),
-                    defs.SpecialToken(tok.pos + len(tok.txt), '{'),
-                    defs.TextToken(tok.pos + len(tok.txt), 'verbatim'),
-                    defs.SpecialToken(tok.pos + len(tok.txt), '}'),
+                    defs.EndToken(end, '\\end'),
+                    defs.SpecialToken(end, '{'),
+                    defs.TextToken(end, 'verbatim'),
+                    defs.SpecialToken(end, '}'),
         ]
 
     #   parse (skip) optional [...] after \\
